@@ -60,6 +60,23 @@ def facts(repo):
 
     # ---- plan.py: already_computed -------------------------------------------------------------
     fn = _func(t, "already_computed", rel)
+    body = [b for b in fn.body if not (isinstance(b, ast.Expr) and isinstance(b.value, ast.Constant))]
+    loops = [b for b in body if isinstance(b, ast.For)]
+    last = body[-1] if body else None
+    # The combination over the outputs is pinned: an explicit loop over dag.successors(name) that returns False at the first
+    # incomplete output and a constant `return True` after it.  Any any()/all()/generator formulation (e.g.
+    # `not all(incomplete(t) …)` for `not any(…)`) is a different program: the model is out of date, not "probably the same".
+    if len(loops) != 1 or "successors(name)" not in _src(loops[0].iter):
+        raise ExtractError(f"{rel}: already_computed no longer combines the outputs with one loop over dag.successors(name)")
+    if not (isinstance(last, ast.Return) and isinstance(last.value, ast.Constant)):
+        raise ExtractError(f"{rel}: already_computed no longer ends with a constant return (found `{_src(last) if last else ''}`)")
+    for node in ast.walk(fn):
+        if isinstance(node, ast.Call) and isinstance(node.func, ast.Name) and node.func.id in ("any", "all"):
+            inside_create_test = any(isinstance(b, ast.If) and node in ast.walk(b.test) and "is None" in _src(b.test) for b in body)
+            if not inside_create_test:
+                raise ExtractError(f"{rel}: already_computed combines outputs with {node.func.id}(…): `{_src(node)[:80]}` — reshaped")
+        if isinstance(node, (ast.GeneratorExp, ast.ListComp)) and "nchunks" in _src(node):
+            raise ExtractError(f"{rel}: completeness of the outputs is combined in a comprehension — reshaped")
     cmp_op, ndim0 = None, False
     refuses, notfound = False, False
     for node in ast.walk(fn):
